@@ -1,9 +1,33 @@
 (* C02 Election safety
-   Full-strength statement: C02_statement (Cluster/Statements.v). Proved so far: the theorems below; what is
-   not yet proved is decided on every run by the lock-step co-simulation (model = implementation on every
-   explored schedule) together with the monitors run on the implementation's own observations. *)
-From RaftV Require Import Cluster.Statements Proofs.RVSpec Proofs.AESpec Proofs.ElectSpec Proofs.Names.
+   Full-strength statement: C02_statement (Cluster/Statements.v): in every execution without membership changes -
+   every delivery order, loss, duplication, delay, crash at any storage write, restart, snapshot - two nodes that
+   are leader in the same term, at any two points of the execution, are the same node.  PROVED below
+   (C02_election_safety); the node-level theorems that follow it are the facts about single sections the proof
+   and the correspondence check rest on.  The tie of the model to the code is the lock-step co-simulation. *)
+From RaftV Require Import Cluster.Statements Proofs.RVSpec Proofs.AESpec Proofs.ElectSpec Proofs.Names Proofs.ElectSafety.
 Open Scope N_scope.
+
+(* C02, first clause, at full strength: every cluster size, every schedule, no bound on terms or steps *)
+Theorem C02_election_safety : C02_statement.
+Proof. exact election_safety. Qed.
+Print Assumptions C02_election_safety.
+
+(* the statement is not vacuous: a static schedule of three nodes after which node 0 leads term 1 *)
+Definition c02_labels : list label :=
+  [LTick 4; LElection 0; LElectionRun 0; LTask 0; LTask 0; LDeliver 0; LReply 0; LElectionRun 0; LTask 0; LTask 0;
+   LDeliver 1; LReply 1; LDeliver 2; LReply 2].
+Example C02_not_vacuous :
+  static c02_labels = true /\ leader_of (run (init_world [0; 1; 2] [0; 1; 2] 4 2) c02_labels) 0 1.
+Proof.
+  split; [reflexivity|]. unfold leader_of.
+  set (ns := w_nodes (run (init_world [0; 1; 2] [0; 1; 2] 4 2) c02_labels)).
+  assert (H : existsb (fun n => (n_id n =? 0) && role_eqb (n_role n) Leader && (n_term n =? 1)) ns = true)
+    by (vm_compute; reflexivity).
+  clearbody ns.
+  apply existsb_exists in H. destruct H as (n & Hn & Hb). apply andb_prop in Hb. destruct Hb as [Hb H3].
+  apply andb_prop in Hb. destruct Hb as [H1 H2]. exists n. split; [exact Hn|]. split; [apply N.eqb_eq, H1|].
+  split; [destruct (n_role n); try discriminate; reflexivity|apply N.eqb_eq, H3].
+Qed.
 
 (* RequestVote, every voter state x every request *)
 Theorem C02_prevote_pure : forall now n q, rv_prevote q = true -> fst (h_request_vote now n q) = n.
